@@ -17,7 +17,6 @@ use proptest::prelude::*;
 use rand::SeedableRng;
 use rand_xoshiro::Xoshiro256Plus;
 use serde::{Deserialize, Serialize};
-use vengine::gen::SplitMix;
 use vengine::{Obs, Tier};
 
 #[derive(Clone, Copy, Debug, PartialEq, Serialize, Deserialize)]
@@ -284,7 +283,6 @@ pub fn strategy(tier: Tier) -> impl Strategy<Value = Cfg> {
         (any::<bool>(), 0u32..=200, 0u32..=10, 0u8..5, 1usize..=4),
     )
         .prop_map(|((algo, data_seed, rng_seed, n, p, classes), (intercept, penalty100, l1_10, power_sel, batches))| {
-            let _ = SplitMix(0);
             Cfg { algo, data_seed, rng_seed, n, p, classes, intercept, penalty100: penalty100 + 1, l1_10, power_sel, batches }
         })
 }
